@@ -11,6 +11,7 @@
 -/
 import Oryx.Proofs.Jose
 import Oryx.Proofs.JoseKw
+import Oryx.Proofs.JoseB64
 namespace Oryx.Props.C16
 open Oryx Oryx.Res Oryx.Jose
 
@@ -63,6 +64,21 @@ decode to the same octet (these are the "no-op flips" the harness counts separat
 theorem b64_leniency_same (i j j' : Nat) (hi : i < 64) (hj : j < 64) (hj' : j' < 64) (h : j / 16 = j' / 16) :
     unb64 [encChar i, encChar j] = unb64 [encChar i, encChar j'] := by
   rw [b64_leniency_tail2 i j hi hj, b64_leniency_tail2 i j' hi hj', h]
+
+/-- The leniency in general, exactly: for any text over the alphabet (any length), if it decodes to
+`b` then the encoding of `b` is the text's canonical form — the text with the data-free low bits of
+its last character cleared (`canonLast`) — and that canonical form decodes to `b` too. Hence two
+texts decode to the same octets only if they agree up to those bits; a 1-character tail never decodes. -/
+theorem b64_leniency_exact (s : List Char) (h : ∀ c ∈ s, B64Char c) (b : Bytes) (hb : unb64 s = ok b) :
+    b64 b = canonLast s ∧ unb64 (canonLast s) = ok b := by
+  have h1 := b64_unb64_canon s h b hb
+  exact ⟨h1, by rw [← h1]; exact unb64_b64 b⟩
+
+theorem b64_same_octets_same_canon (s s' : List Char) (h : ∀ c ∈ s, B64Char c) (h' : ∀ c ∈ s', B64Char c)
+    (b : Bytes) (hb : unb64 s = ok b) (hb' : unb64 s' = ok b) : canonLast s = canonLast s' := by
+  rw [← b64_unb64_canon s h b hb, ← b64_unb64_canon s' h' b hb']
+
+theorem b64_one_char_tail_fails (c : Char) (h : B64Char c) : unb64 [c] = err .generic := unb64_len1_fails c h
 
 /-! ### compact serialisation -/
 
@@ -156,11 +172,11 @@ theorem merge_protected_wins (p u r : Header) (h : p.alg ≠ "") :
 
 /-! ### parameter checks before `Open`, decrypt flag -/
 
-/-- With a key of a size the algorithm family accepts, no IV / tag length makes the content cipher
-panic: wrong sizes are errors (repaired F15a). -/
-theorem precheck_never_panics (e : Enc) (keyLen ivLen tagLen : Nat)
+/-- With a key of a size the algorithm family accepts, no IV / ciphertext / tag length makes the
+content cipher panic: wrong sizes are errors (repaired F15a). -/
+theorem precheck_never_panics (e : Enc) (keyLen ivLen ctLen tagLen : Nat)
     (hk : if e.isGcm then True else keyLen % 2 = 0) :
-    precheck e keyLen ivLen tagLen ≠ .panic := by
+    precheck e keyLen ivLen ctLen tagLen ≠ .panic := by
   unfold precheck
   cases hg : e.isGcm
   · simp only [hg] at hk
@@ -170,14 +186,17 @@ theorem precheck_never_panics (e : Enc) (keyLen ivLen tagLen : Nat)
     · simp
     · split
       · simp
-      · rename_i h1 _; simp at h1; simp [h1]
+      · split
+        · simp
+        · rename_i h1 _ _; simp at h1; simp [h1]
   · simp only [if_true]
     split
     · simp
     · split <;> simp
 
 /-- `Open` is entered only with the nonce size of the algorithm and a tag of at least 16 bytes. -/
-theorem precheck_ok_lengths (e : Enc) (keyLen ivLen tagLen : Nat) (h : precheck e keyLen ivLen tagLen = ok ()) :
+theorem precheck_ok_lengths (e : Enc) (keyLen ivLen ctLen tagLen : Nat)
+    (h : precheck e keyLen ivLen ctLen tagLen = ok ()) :
     ivLen = e.nonceSize ∧ 16 ≤ tagLen := by
   unfold precheck at h
   split at h
@@ -191,12 +210,14 @@ theorem precheck_ok_lengths (e : Enc) (keyLen ivLen tagLen : Nat) (h : precheck 
     · split at h
       · cases h
       · rename_i hh; simp [Enc.tagBytes] at hh
-        split at h <;> first | exact hh | cases h
+        split at h
+        · cases h
+        · split at h <;> first | exact hh | cases h
 
 /-- F15a (repaired; regression witness): before the repair a 3-byte GCM IV reached the documented
 panic of `cipher.NewGCM(...).Open`. -/
-theorem f15a_witness_unrepaired : precheckUnrepaired .a128gcm 16 3 16 = .panic ∧
-    precheck .a128gcm 16 3 16 = err .generic := ⟨rfl, rfl⟩
+theorem f15a_witness_unrepaired : precheckUnrepaired .a128gcm 16 3 3 16 = .panic ∧
+    precheck .a128gcm 16 3 3 16 = err .generic := ⟨rfl, rfl⟩
 
 /-- F19 (repaired; regression witness): `Open` returns an empty (nil) slice for an empty plaintext;
 the old failure flag `plaintext == nil` turned that success into an error. -/
@@ -549,6 +570,9 @@ example : BlockPerm (toyEnc 3) (toyDec 3) := toy_perm 3
 example : b64 [0x66, 0x6f, 0x6f, 0x62, 0x61] = "Zm9vYmE".toList ∧ unb64 "Zm9vYmE".toList = ok [0x66, 0x6f, 0x6f, 0x62, 0x61] ∧
     unb64 "Zm9vYmF".toList = ok [0x66, 0x6f, 0x6f, 0x62, 0x61] ∧ b64 [0xfb, 0xff] = "-_8".toList := by
   refine ⟨by decide, rfl, rfl, by decide⟩
+set_option maxRecDepth 8192 in
+example : canonLast "Zm9vYmF".toList = "Zm9vYmE".toList := by decide +kernel
+example : ∀ c ∈ b64 [0x66, 0x6f], B64Char c := b64_chars _
 example : compactSerialize [[1], [], [2, 3]] = "AQ..AgM".toList := by decide
 example : pad 16 [1, 2, 3] = [1, 2, 3, 13, 13, 13, 13, 13, 13, 13, 13, 13, 13, 13, 13, 13] := by decide
 example : ecSigEncode 4 1 258 = ok [0, 0, 0, 1, 0, 0, 1, 2] := rfl
